@@ -1,8 +1,370 @@
-/- C06 — property theorems -/
+/-
+C06 — property theorems: event collections are fetched by the requested bank, type and backend
+idiom.  Every statement is universally quantified over specifications, bank strings, metadata
+dictionaries, lists of calls and name-counter positions (no bound on any size); the theorems
+about `Gen.*` constants are re-proved whenever /repo's source changes them.
+Helper lemmas live in `Proofs.lean`; nothing here is weakened to make a proof pass.
+-/
 import FaxVerif.C06.Proofs
 namespace FaxVerif.C06
 
-/-- the translator recognised every construct it read -/
+/-! ## T — the source was understood, the built-in tables are sane -/
+
+/-- **C06.source_recognised** — the translator interpreted every construct of the anchored source
+it read (tables, container and coder classes, metadata branches, executor backend tests, README);
+anything it could not read is listed in `Gen.unrecognised` and makes this fail. -/
 theorem source_recognised : Gen.unrecognised = [] := by decide
+
+/-- **C06.builtin_rows** — every row of the three built-in tables is consistent with its
+experiment's naming scheme: ATLAS `xAOD::<X>Container` holds `xAOD::<X>` pointers behind a
+pointer, its own header is requested and the link libraries are exactly the first path segments
+of the headers; CMS `<ns>::<X>Collection` holds `<ns>::<X>` values behind a handle, `<X>.h` from
+`DataFormats/*/interface/` is requested and nothing is linked.  A row edited to another class,
+header, library or pointer depth stops deciding, and that row is the failing input. -/
+theorem builtin_rows :
+    (∀ r ∈ Gen.atlasCollections, AtlasRowOk r) ∧
+    (∀ r ∈ Gen.cmsAodCollections, CmsRowOk t!"cms_aod" Gen.cmsAodClasses r) ∧
+    (∀ r ∈ Gen.cmsMiniaodCollections, CmsRowOk t!"cms_miniaod" Gen.cmsMiniaodClasses r) := by
+  refine ⟨?_, ?_, ?_⟩ <;> decide
+
+/-- **C06.builtin_names** — every collection function the README names is in the ATLAS table, no
+backend has two built-ins of one name, and every built-in row becomes a specification. -/
+theorem builtin_names :
+    (∀ n ∈ Gen.readmeAtlasCollections, n ∈ namesOf Gen.atlasCollections) ∧ Gen.readmeAtlasCollections ≠ [] ∧
+    (namesOf Gen.atlasCollections).Nodup ∧ (namesOf Gen.cmsAodCollections).Nodup ∧ (namesOf Gen.cmsMiniaodCollections).Nodup ∧
+    (∀ b : Backend, (builtins b).length = b.rows.length) := by
+  refine ⟨by decide, by decide, by decide, by decide, by decide, ?_⟩
+  intro b; cases b <;> decide
+
+/-- **C06.builtin_specs** — seen through the model, each built-in is handed out with the handle
+text of the property and the backend's pointer depths (ATLAS container*/element*, CMS
+handle/value): the model's table *is* the property's table. -/
+theorem builtin_specs (b : Backend) : (builtins b).map declOf = builtinDecls b :=
+  builtins_declOf b
+
+/-- **C06.default_types** — the default method-type declarations of the three backends declare
+no (class, method) twice and only pointer depths 0/1; on ATLAS and CMS AOD every class that
+carries defaults is reachable from a built-in collection. -/
+theorem default_types :
+    DefaultTypesOk Gen.atlasDefaultTypes ∧ DefaultTypesOk Gen.cmsAodDefaultTypes ∧ DefaultTypesOk Gen.cmsMiniaodDefaultTypes ∧
+    DefaultTypesReachable Gen.atlasCollections Gen.atlasDefaultTypes ∧
+    DefaultTypesReachable Gen.cmsAodCollections Gen.cmsAodDefaultTypes := by
+  refine ⟨?_, ?_, ?_, ?_, ?_⟩ <;> decide
+
+/-- **C06.documented_keys** — every key the README documents for a backend's declaration is
+accepted by that backend, and the executor of backend `b` insists on exactly the backend name the
+`b` branch of `process_metadata` writes into its specifications. -/
+theorem documented_keys :
+    (∀ k ∈ Gen.readmeAtlasKeys, k ∈ Backend.whitelist .atlas) ∧
+    (∀ k ∈ Gen.readmeCmsAodKeys, k ∈ Backend.whitelist .cmsAod) ∧
+    (∀ k ∈ Gen.readmeCmsMiniaodKeys, k ∈ Backend.whitelist .cmsMiniaod) ∧
+    (∀ b : Backend, ∃ br, findBranch b.mdType = some br ∧ br.specBackend = b.execName) := by
+  refine ⟨by decide, by decide, by decide, ?_⟩
+  intro b
+  exact ⟨branchOf b, findBranch_mdType b, branch_specBackend b⟩
+
+/-- **C06.whitelist_keys_read_partial** — every key a branch accepts is a key it looks at, except
+`element_pointer` (defect exclusion, see the counterexample below).
+Full statement: `∀ br ∈ Gen.mdBranches, ∀ k ∈ br.whitelist, k = "metadata_type" ∨ k ∈ br.readKeys`. -/
+theorem whitelist_keys_read_partial :
+    ∀ br ∈ Gen.mdBranches, ∀ k ∈ br.whitelist, k ≠ t!"element_pointer" → k = t!"metadata_type" ∨ k ∈ br.readKeys := by
+  decide
+
+/-- **C06.whitelist_keys_read_counterexample** — both CMS branches accept `element_pointer` and
+never look at it. -/
+theorem whitelist_keys_read_counterexample :
+    ∃ br ∈ Gen.mdBranches, t!"element_pointer" ∈ br.whitelist ∧ t!"element_pointer" ∉ br.readKeys := by
+  decide
+
+/-! ## the bank reaches the retrieval, and only the retrieval -/
+
+/-- **C06.bank_substitution** — the bank-name instance of the substitution law: in a line
+`pre collection_name post` whose neighbours are not word characters, exactly that word is replaced
+by the literal; the literal itself is never looked at again (it may contain `collection_name`). -/
+theorem bank_substitution (lit pre post : Text) (h1 : endsNonWord pre = true) (h2 : startsNonWord post = true) :
+    substWord paramName lit (pre ++ paramName ++ post) =
+      substWord paramName lit pre ++ lit ++ substWord paramName lit post := by
+  rw [List.append_assoc, substWord_append _ _ _ _ (Or.inl h1), substWord_append _ _ _ _ (Or.inr h2),
+    substWord_self _ _ paramName_word paramName_ne, List.append_assoc]
+
+/-- **C06.retrieval** — for every backend, every collection specification in force on it
+(built-in or declared through metadata), every bank string and wherever the name counters
+stand: the call `e.<Collection>("bank")` is accepted and `process_ast_node` emits
+`T x;` and the block `{ T result(=0); IDIOM_b(T, bank); x = result; }` with `T` the handle of that
+collection's container type and the bank's C++ literal exactly once, in the idiom line.
+Hypothesis `TypeClean`: the container type does not contain the word `collection_name`
+(defect exclusion, `retrieval_typename_counterexample`). -/
+theorem retrieval (b : Backend) (mds : List Md) (table : List CollSpec) (hd : declare b mds = .ok table)
+    (c : CollSpec) (hc : c ∈ table) (hclean : TypeClean (declOf c)) (bank : Text) (n : Nat) (st : GenState) :
+    ∃ cv n', getCollection b.coder c [.str bank] n = .ok (cv, n') ∧
+      (processNode cv st).1.decl = expectedDecl (expectedTy b (declOf c)) (processNode cv st).1.var ∧
+      (processNode cv st).1.lines =
+        expectedLines b (expectedTy b (declOf c)) (cppLit bank) (processNode cv st).1.tok (processNode cv st).1.var := by
+  obtain ⟨_, hcl, _⟩ := declare_sound hd
+  obtain ⟨f1, f2, _⟩ := frag_any b c bank n st (hcl c hc) hclean
+  exact ⟨_, _, getCollection_str _ _ _ _, f2, f1⟩
+
+/-- **C06.retrieval_typename_counterexample** — a declared container type that contains the word
+`collection_name` is hit by the textual substitution as well: the declaration of `result` is
+corrupted (`const my::"b"* result = 0;`). -/
+theorem retrieval_typename_counterexample :
+    ∃ (md : Md) (c : CollSpec), validate md = .ok c ∧ ValidMd .atlas md ∧
+      ∀ cv n', getCollection (Backend.coder .atlas) c [.str t!"b"] 0 = .ok (cv, n') →
+        (processNode cv ⟨0, [], [], [], []⟩).1.lines ≠
+          expectedLines .atlas (expectedTy .atlas (declOf c)) (cppLit t!"b") [] (processNode cv ⟨0, [], [], [], []⟩).1.var := by
+  refine ⟨⟨Backend.mdType .atlas, [(t!"name", .str t!"Foo"), (t!"include_files", .strs [t!"Foo.h"]),
+    (t!"container_type", .str t!"my::collection_name"), (t!"element_type", .str t!"my::Foo"),
+    (t!"contains_collection", .bool true)]⟩, ?_⟩
+  refine ⟨_, rfl, by decide, ?_⟩
+  intro cv n' h
+  rw [getCollection_str] at h
+  simp only [Except.ok.injEq, Prod.mk.injEq] at h
+  rw [← h.1]
+  decide
+
+/-- **C06.singleton_is_value** — a singleton collection (no element type) is handed to the
+translator as a plain variable accessed through the pointer, never as something to iterate; a
+collection is handed over as a sequence iterated by dereferencing the handle. -/
+theorem singleton_is_value (cd : CoderInfo) (c : CollSpec) (bank : Text) (n : Nat) (st : GenState) (k : Consumer) :
+    let f := (processNode (mkCV cd c bank n) st).1
+    (c.element = none → (∃ op, f.rep = .variable op) ∧ (f.observe k).iters = [] ∧ (f.observe k).elemOps = []) ∧
+    (∀ e, c.element = some e → (∃ it op, f.rep = .collection it op) ∧ (f.observe k).selfOps = []) := by
+  have hs : (mkCV cd c bank n).spec = c := rfl
+  refine ⟨?_, ?_⟩
+  · intro he
+    simp only [processNode, repOf, hs, he, Frag.observe]
+    exact ⟨⟨_, rfl⟩, by trivial, by trivial⟩
+  · intro e he
+    simp only [processNode, repOf, hs, he, Frag.observe]
+    exact ⟨⟨_, _, rfl⟩, by trivial⟩
+
+/-- **C06.failed_retrieve_aborts** — ATLAS: for every specification in force and every bank, the
+idiom line is the *status-checked* retrieval of exactly that bank; under the semantics of the
+checked idiom a failed retrieval ends the event with the fault before the container variable is
+read even once (a null container is never iterated), and a successful one hands a non-null
+container to every later use. -/
+theorem failed_retrieve_aborts (mds : List Md) (table : List CollSpec) (hd : declare .atlas mds = .ok table)
+    (c : CollSpec) (hc : c ∈ table) (hclean : TypeClean (declOf c)) (bank : Text) (n : Nat) (st : GenState)
+    (found : Text → Bool) (uses : Nat) :
+    ∃ l1 l2 l3, (processNode (mkCV (Backend.coder .atlas) c bank n) st).1.lines = [l1, l2, l3] ∧
+      parseRetrieve l2 = .checked (cppLit bank) ∧
+      (found (cppLit bank) = false → runRetrieve found (parseRetrieve l2) uses = [.retrieve (cppLit bank), .abort]) ∧
+      (found (cppLit bank) = true →
+        runRetrieve found (parseRetrieve l2) uses = .retrieve (cppLit bank) :: List.replicate uses (.useContainer false)) := by
+  obtain ⟨_, hcl, _⟩ := declare_sound hd
+  obtain ⟨f1, _⟩ := frag_any .atlas c bank n st (hcl c hc) hclean
+  refine ⟨_, _, _, f1, ?_⟩
+  have hp : parseRetrieve (t!"ANA_CHECK (evtStore()->retrieve(result, " ++ cppLit bank ++ t!"));") = .checked (cppLit bank) := by
+    unfold parseRetrieve
+    rw [List.append_assoc]
+    simp only [stripPrefix?_append, stripSuffix?_append]
+  refine ⟨hp, ?_, ?_⟩
+  · intro hf; rw [hp]; simp [runRetrieve, hf]
+  · intro hf; rw [hp]; simp [runRetrieve, hf]
+
+/-- **C06.unchecked_retrieve_counterexample** — why the check matters: the same line without
+`ANA_CHECK` lets a failed retrieval hand a null container to its first use. -/
+theorem unchecked_retrieve_counterexample :
+    runRetrieve (fun _ => false) (parseRetrieve t!"evtStore()->retrieve(result, \"b\");") 1 =
+      [.retrieve t!"\"b\"", .useContainer true] := by decide
+
+/-! ## declarations through metadata -/
+
+/-- **C06.validate_iff** (ATLAS) — a declaration is accepted exactly when it is well formed: only
+whitelisted keys, the required keys present, and `element_type` given iff `contains_collection`
+is true.  (`WellTyped`: every value has the documented Python type.) -/
+theorem validate_iff (md : Md) (hty : md.mdType = Backend.mdType .atlas) (hwt : md.WellTyped) :
+    (∃ c, validate md = .ok c) ↔ ValidMd .atlas md := by
+  rw [validate_of_mdType .atlas md hty]
+  constructor
+  · rintro ⟨c, h⟩; exact (validateWith_sound .atlas md c hty h).1
+  · intro hv; exact validateWith_complete .atlas md hv hwt (Or.inl rfl)
+
+/-- **C06.validate_iff_cms_partial** — the same on the two CMS backends for declarations of
+collections.  Full statement: as `validate_iff`; it is false for `contains_collection = False`
+(defect exclusion `CmsIsCollection`, counterexample below). -/
+theorem validate_iff_cms_partial (b : Backend) (md : Md) (hty : md.mdType = b.mdType) (hwt : md.WellTyped)
+    (hcoll : CmsIsCollection b md) : (∃ c, validate md = .ok c) ↔ ValidMd b md := by
+  rw [validate_of_mdType b md hty]
+  constructor
+  · rintro ⟨c, h⟩; exact (validateWith_sound b md c hty h).1
+  · intro hv; exact validateWith_complete b md hv hwt hcoll
+
+/-- **C06.validate_cms_singleton_counterexample** — a well-formed CMS declaration of a singleton
+(`contains_collection` false, no `element_type`, as the README documents) is rejected: the branch
+indexes `md["element_type"]` unconditionally (KeyError). -/
+theorem validate_cms_singleton_counterexample :
+    ∃ md : Md, ValidMd .cmsAod md ∧ md.WellTyped ∧ validate md = .error (.missingKey t!"element_type") := by
+  refine ⟨⟨Backend.mdType .cmsAod, [(t!"name", .str t!"Foo"), (t!"include_files", .strs [t!"Foo.h"]),
+    (t!"container_type", .str t!"reco::Foo"), (t!"contains_collection", .bool false)]⟩, by decide, by decide, rfl⟩
+
+/-- **C06.validate_declares** — an accepted declaration declares what it says: name, headers,
+container type, element type (or none), libraries, and — if `element_pointer` is absent or names
+the backend's default kind — the element kind. -/
+theorem validate_declares (b : Backend) (md : Md) (c : CollSpec) (hty : md.mdType = b.mdType) (h : validate md = .ok c)
+    (hk : KindDefault b md) : declOf c = intended b md ∧ c.backend = b.execName := by
+  rw [validate_of_mdType b md hty] at h
+  obtain ⟨_, h2, _, h4⟩ := validateWith_sound b md c hty h
+  exact ⟨h4 hk, h2⟩
+
+/-- **C06.element_pointer_counterexample** — `element_pointer: True` is accepted on CMS and
+ignored: the specification built says "elements are values". -/
+theorem element_pointer_counterexample :
+    ∃ (md : Md) (c : CollSpec), ValidMd .cmsAod md ∧ validate md = .ok c ∧
+      (intended .cmsAod md).elemPtr = true ∧ (declOf c).elemPtr = false := by
+  refine ⟨⟨Backend.mdType .cmsAod, [(t!"name", .str t!"Foo"), (t!"include_files", .strs [t!"Foo.h"]),
+    (t!"container_type", .str t!"reco::FooCollection"), (t!"element_type", .str t!"reco::Foo"),
+    (t!"contains_collection", .bool true), (t!"element_pointer", .bool true)]⟩, _, by decide, rfl, by decide, by decide⟩
+
+/-- **C06.backend_refused** — whatever else the query says, one declaration for another backend
+makes the executor refuse the job. -/
+theorem backend_refused (b : Backend) (mds : List Md) (uses : List Use) (c0 gap : Nat) (md : Md) (hm : md ∈ mds)
+    (hother : md.mdType ≠ b.mdType) : ∃ e, runJob b mds uses c0 gap = .error e := by
+  cases hd : declare b mds with
+  | error e => exact ⟨e, by simp [runJob, hd]⟩
+  | ok table => exact absurd ((declare_sound hd).1 md hm).1 hother
+
+/-- **C06.override** — after the metadata has been processed, a name that some declaration
+carries means the (last processed) declaration of that name, whether or not a built-in has the
+name too; all other names mean the built-in. -/
+theorem override (b : Backend) (mds : List Md) (cs table : List CollSpec) (hv : validateAll mds = .ok cs)
+    (hd : declare b mds = .ok table) (n : Text) :
+    lookup table n = (lookup cs n).orElse (fun _ => lookup (builtins b) n) := by
+  unfold declare at hd
+  rw [hv] at hd
+  cases h2 : checkBackends b cs with
+  | error e => simp [h2] at hd
+  | ok u =>
+    simp [h2] at hd
+    rw [← hd, lookup_append]
+    cases lookup cs n <;> rfl
+
+/-- **C06.call_shape** — `get_collection` accepts a call exactly when it has one argument and that
+argument is a string constant; and a job in which some collection call has another shape is
+refused. -/
+theorem call_shape (cd : CoderInfo) (c : CollSpec) (args : List Arg) (n : Nat) :
+    (∃ r, getCollection cd c args n = .ok r) ↔ CallOk args :=
+  getCollection_ok_iff cd c args n
+
+theorem call_shape_job (b : Backend) (mds : List Md) (uses : List Use) (c0 gap : Nat) (out : JobOut)
+    (h : runJob b mds uses c0 gap = .ok out) : ∀ u ∈ uses, CallOk u.args := by
+  unfold runJob at h
+  cases hd : declare b mds with
+  | error e => simp [hd] at h
+  | ok table =>
+    cases hf : findAll b.coder table uses c0 with
+    | error e => simp [hd, hf] at h
+    | ok p => exact fun u hu => ((findAll_ok hf).1 u hu).1
+
+/-! ## include and link-library lists -/
+
+/-- **C06.dedup** — `add_include` / `add_link_library` over any sequence of requests leave every
+requested entry exactly once, in the order of first request. -/
+theorem dedup (requests : List Text) : DedupSpec requests (addAll [] requests) :=
+  addAll_nil_dedup requests
+
+/-- **C06.job_includes** — the include (library) list of a job is that accumulation over the
+headers (libraries) of the collections its calls mean, in emission order — for every accepted job,
+with no further hypothesis. -/
+theorem job_includes (b : Backend) (mds : List Md) (uses : List Use) (c0 gap : Nat) (out : JobOut)
+    (h : runJob b mds uses c0 gap = .ok out) :
+    ∃ table, declare b mds = .ok table ∧
+      DedupSpec ((dsOf table uses).flatMap (·.1.includes)) out.includes ∧
+      DedupSpec ((dsOf table uses).flatMap (·.1.libraries)) out.libs := by
+  unfold runJob at h
+  cases hd : declare b mds with
+  | error e => simp [hd] at h
+  | ok table =>
+    cases hf : findAll b.coder table uses c0 with
+    | error e => simp [hd, hf] at h
+    | ok p =>
+      obtain ⟨cvs, n⟩ := p
+      simp only [hd, hf, Except.ok.injEq] at h
+      have hcv : cvs = cvsOf b.coder table uses c0 := (findAll_ok hf).2
+      subst hcv
+      obtain ⟨g1, g2⟩ := emitAll_includes (cvsOf b.coder table uses c0)
+        { counter := n + gap, includes := [], libs := [], classDecls := [], book := [] }
+      refine ⟨table, rfl, ?_, ?_⟩
+      · rw [← h]; simp only []
+        rw [g1, (cvsOf_flat b.coder table uses c0).1]; exact addAll_nil_dedup _
+      · rw [← h]; simp only []
+        rw [g2, (cvsOf_flat b.coder table uses c0).2]; exact addAll_nil_dedup _
+
+/-! ## the whole job -/
+
+/-- **C06.run_spec_partial** — the property for whole jobs, on every backend, for every list of
+metadata declarations, every list of collection calls (any number, any repetition), wherever the
+name counters stand and however the translator goes on to use the values: a job is refused
+exactly when a declaration is malformed or for another backend, or a call does not have exactly
+one string-constant argument (or names nothing); otherwise every call gets its own variable,
+declared once with the container's handle type, filled by the backend's idiom with exactly its
+bank, iterated (collections) or accessed (singletons) as declared; miniAOD tokens are pairwise
+distinct, declared once and initialised once with their use's bank; headers and libraries are
+the union of what the used collections need, once each in order of first use.
+Hypotheses (all decidable, all used as generator filters):
+ * `WellTyped`  — values have the documented Python types (modelling domain);
+ * `KindDefault`, `CmsIsCollection`, `TypeClean` — defect exclusions (three listed findings,
+   counterexample theorems above and below);
+ * `NameClean`  — no collection name ends in a digit (`unique_name` is `name ++ index`, which is
+   only injective for such names; C02 owns that finding).
+Full statement: the same without the last four hypotheses. -/
+theorem run_spec_partial (b : Backend) (mds : List Md) (uses : List Use) (c0 gap : Nat) (ks : List Consumer)
+    (hwt : ∀ md ∈ mds, md.WellTyped) (hkind : ∀ md ∈ mds, KindDefault b md) (hcms : ∀ md ∈ mds, CmsIsCollection b md)
+    (hclean : ∀ p ∈ resolveAll b mds uses, TypeClean p.1) (hnames : ∀ u ∈ uses, NameClean u.name) :
+    RunSpec b mds uses (outcomeOf (runJob b mds uses c0 gap) ks) :=
+  runJob_spec b mds uses c0 gap ks hwt hkind hcms hclean hnames
+
+/-- **C06.miniaod_tokens_distinct** — the corollary the property singles out: in every accepted
+miniAOD job (under the hypotheses above) the tokens of the retrieval blocks are pairwise
+distinct, and the class declares / the constructor initialises exactly one line per use: the
+use's token with the container's token type / with `consumes<C>(edm::InputTag("bank"))`. -/
+theorem miniaod_tokens_distinct (mds : List Md) (uses : List Use) (c0 gap : Nat) (ks : List Consumer) (out : JobOut)
+    (hwt : ∀ md ∈ mds, md.WellTyped) (hkind : ∀ md ∈ mds, KindDefault .cmsMiniaod md)
+    (hcms : ∀ md ∈ mds, CmsIsCollection .cmsMiniaod md)
+    (hclean : ∀ p ∈ resolveAll .cmsMiniaod mds uses, TypeClean p.1) (hnames : ∀ u ∈ uses, NameClean u.name)
+    (h : runJob .cmsMiniaod mds uses c0 gap = .ok out) :
+    TokenSpec .cmsMiniaod (resolveAll .cmsMiniaod mds uses) (out.observe ks) ∧ (out.frags.map (·.tok)).Nodup := by
+  have := run_spec_partial .cmsMiniaod mds uses c0 gap ks hwt hkind hcms hclean hnames
+  rw [h] at this
+  have ht : TokenSpec .cmsMiniaod (resolveAll .cmsMiniaod mds uses) (out.observe ks) := this.2.2.2.2.1
+  refine ⟨ht, ?_⟩
+  have hn := ht.1
+  simp only [JobOut.observe] at hn
+  rwa [(observeFrags_map out.frags ks).2] at hn
+
+/-- **C06.run_spec_element_pointer_counterexample** — without `KindDefault` the job-level
+statement is false of the code: a CMS AOD collection declared with `element_pointer: True` is
+iterated with value access (`i.pt()`). -/
+theorem run_spec_element_pointer_counterexample :
+    ∃ (mds : List Md) (uses : List Use), ¬ RunSpec .cmsAod mds uses (outcomeOf (runJob .cmsAod mds uses 0 0) [⟨1, 1, 0⟩]) := by
+  refine ⟨[⟨Backend.mdType .cmsAod, [(t!"name", .str t!"Foo"), (t!"include_files", .strs [t!"Foo.h"]),
+    (t!"container_type", .str t!"reco::FooCollection"), (t!"element_type", .str t!"reco::Foo"),
+    (t!"contains_collection", .bool true), (t!"element_pointer", .bool true)]⟩],
+    [⟨t!"Foo", [.str t!"b"], 0⟩], by decide⟩
+
+/-! ## non-vacuity: the hypotheses are satisfiable on non-trivial inputs -/
+
+/-- a declared ATLAS collection that replaces the built-in `Jets`, used twice with two banks, and
+the singleton `EventInfo`: accepted, all hypotheses hold, three blocks come out. -/
+example :
+    let md : Md := ⟨Backend.mdType .atlas, [(t!"name", .str t!"Jets"), (t!"include_files", .strs [t!"my/JetContainer.h", t!"xAODEventInfo/EventInfo.h"]),
+      (t!"container_type", .str t!"my::JetContainer"), (t!"element_type", .str t!"my::Jet"), (t!"contains_collection", .bool true),
+      (t!"link_libraries", .strs [t!"myLib"])]⟩
+    let uses : List Use := [⟨t!"Jets", [.str t!"a"], 0⟩, ⟨t!"EventInfo", [.str t!"e"], 2⟩, ⟨t!"Jets", [.str t!"a\"b"], 1⟩]
+    md.WellTyped ∧ KindDefault .atlas md ∧ CmsIsCollection .atlas md ∧ (∀ p ∈ resolveAll .atlas [md] uses, TypeClean p.1) ∧
+    (∀ u ∈ uses, NameClean u.name) ∧ Acceptable .atlas [md] uses ∧
+    ((runJob .atlas [md] uses 7 3).toOption.map (fun o => (o.frags.length, o.includes, o.libs))) =
+      some (3, [t!"my/JetContainer.h", t!"xAODEventInfo/EventInfo.h"], [t!"myLib", t!"xAODEventInfo"]) := by
+  decide
+
+/-- two miniAOD collections in one job: two distinct tokens -/
+example :
+    ((runJob .cmsMiniaod [] [⟨t!"Muons", [.str t!"slimmedMuons"], 0⟩, ⟨t!"Electrons", [.str t!"slimmedElectrons"], 0⟩] 0 0).toOption.map
+      (fun o => o.frags.map (·.tok))) = some [t!"token0", t!"token1"] := by
+  decide
+
+/-- a declaration for another backend is there to be refused -/
+example : ∃ e, runJob .atlas [⟨Backend.mdType .cmsAod, []⟩] [] 0 0 = .error e :=
+  backend_refused .atlas _ [] 0 0 _ (List.mem_singleton.2 rfl) (by decide)
 
 end FaxVerif.C06
